@@ -4,7 +4,8 @@ use crate::run::*;
 use crate::util::*;
 use h264_reader::annexb::AnnexBReader;
 
-pub struct Oracle { run: Runner, full_nal: Vec<u8> }
+pub struct Oracle { run: Runner, full_nal: Vec<u8>, /// C19: what has been accepted since the last reset (id -> level_idc; id -> (sps id, l0 default))
+    sps_seen: std::collections::BTreeMap<u8, u8>, pps_seen: std::collections::BTreeMap<u8, (u8, u32)> }
 
 /// Annex B segmentation of a whole stream followed by end of stream: bytes of each unit and an end marker `E`
 pub fn reference_segmentation(s: &[u8]) -> Vec<String> {
@@ -46,7 +47,7 @@ fn events(calls: &[String]) -> Vec<String> {
 }
 
 impl Oracle {
-    pub fn new() -> Oracle { Oracle { run: Runner::new(), full_nal: vec![] } }
+    pub fn new() -> Oracle { Oracle { run: Runner::new(), full_nal: vec![], sps_seen: Default::default(), pps_seen: Default::default() } }
     pub fn check(&mut self, prop: &str, line: &str) -> String {
         let r = std::panic::catch_unwind(std::panic::AssertUnwindSafe(|| self.check_inner(prop, line)));
         match r { Ok(s) => s, Err(_) => "FAIL panic".to_string() }
@@ -104,18 +105,30 @@ impl Oracle {
             ("C11", "pt") => self.c11_pt(&toks, line),
             ("C13", "derived") => self.c13(line),
             ("C16", "sps") | ("C16", "pps") | ("C16", "slice") => self.c16(&toks, line),
-            ("C09", "avcc") => self.c09(toks.get(1).copied().unwrap_or(""), line),
+            ("C09", "avcc") | ("C19", "avcc") => self.c09(toks.get(1).copied().unwrap_or(""), line),
             ("C12", "stream") => self.c12(&toks[1..], line),
             ("C17", "full") => { self.full_nal = unhex(toks.get(1).copied().unwrap_or("")); "ok".into() }
             ("C17", "nal") => self.c17(&toks, line),
             ("C19", "ctx") => self.c19(&toks[1..], line),
+            // the context as a last-writer-wins map over everything accepted since the last reset, kept here independently
+            ("C19", "reset") => { self.sps_seen.clear(); self.pps_seen.clear(); let _ = self.run.run_line(line); "ok".into() }
+            ("C19", "sps") => { let d = unhex(toks.get(1).copied().unwrap_or(""));
+                if let Ok(s) = h264_reader::nal::sps::SeqParameterSet::from_bits(h264_reader::rbsp::BitReader::new(&d[..])) { self.sps_seen.insert(s.seq_parameter_set_id.id(), s.level_idc); }
+                let _ = self.run.run_line(line); "ok".into() }
+            ("C19", "pps") => { let d = unhex(toks.get(1).copied().unwrap_or(""));
+                if let Ok(p) = h264_reader::nal::pps::PicParameterSet::from_bits(&self.run.ctx, h264_reader::rbsp::BitReader::new(&d[..])) { self.pps_seen.insert(p.pic_parameter_set_id.id(), (p.seq_parameter_set_id.id(), p.num_ref_idx_l0_default_active_minus1)); }
+                let _ = self.run.run_line(line); "ok".into() }
+            ("C19", "dump") => { let got = self.run.run_line(line);
+                let want = format!("sps=[{}] pps=[{}]", self.sps_seen.iter().map(|(i, l)| format!("{}:{}", i, l)).collect::<Vec<_>>().join(","), self.pps_seen.iter().map(|(i, (s, l))| format!("{}:{}:{}", i, s, l)).collect::<Vec<_>>().join(","));
+                if got == want { "ok".into() } else { format!("FAIL the context holds [{}] but the parameter sets accepted since the last reset are [{}]", got, want) } }
+            ("C20", "derived") => self.c13(line),
             ("C10", "sei") => self.c10(&toks[1..], line),
             ("C20", _) | ("C13", "profile") | ("C13", "level") => self.c20(&toks),
             ("C03", _) => {
                 // (the constant covers the parameter-set tables: 256 slots of a PPS, 32 of an SPS - fixed, input-independent sizes)
                 // input size in bytes (hex digits / 2); the whole case execution (library + the harness's own parsing and
                 // rendering, which is linear in input + output) must stay within a fixed multiple of it
-                let len = line.bytes().filter(|b| b.is_ascii_hexdigit()).count() / 2;
+                let len = input_len(line);
                 crate::alloc_count::reset();
                 let o = self.run.run_line(line);
                 let (maxreq, total) = crate::alloc_count::get();
@@ -173,9 +186,14 @@ impl Oracle {
             }
         }
         // reset outside a unit makes no call: the reference scan tells whether a unit is open
-        let mut data = vec![];
+        let mut data = vec![]; let mut ends = 0usize;
         for (k, op) in ops.iter().enumerate() {
+            ends += calls[k].iter().filter(|c| c.ends_with(";1")).count();
             if *op == "r" {
+                // every unit of the reference segmentation of this portion is ended exactly once
+                let want = reference_segmentation(&data).iter().filter(|e| *e == "E").count();
+                if ends != want { return format!("FAIL portion ending at op {}: {} end-of-unit calls for {} units", k, ends, want); }
+                ends = 0;
                 if !inside_at_end(&data) && !calls[k].is_empty() { return format!("FAIL op {}: reset outside a unit made a call", k); }
                 if inside_at_end(&data) && calls[k].iter().filter(|c| c.ends_with(";1")).count() != 1 { return format!("FAIL op {}: reset inside a unit did not end it exactly once", k); }
                 data.clear();
@@ -383,18 +401,20 @@ impl Oracle {
         // create_context = every entry parsed on its own, in order, from its RBSP (un-escaped by the reference routine of this
         // harness and read from one contiguous buffer); the first failure decides the error class
         let mut ctx = h264_reader::Context::new(); let mut err: Option<&str> = None;
+        // last writer wins, kept here in ordered maps (id -> rendering) independently of the library's tables
+        let mut smap: std::collections::BTreeMap<u8, String> = Default::default(); let mut pmap: std::collections::BTreeMap<u8, String> = Default::default();
         'ctx: for which in 0..2 {
             for n in &lists[which] {
                 if n.is_empty() || n[0] & 0x80 != 0 || n[0] & 31 != [7u8, 8][which] { err = Some("ParamSet"); break 'ctx; }
                 let (rbsp, valid) = unescape(&n[1..]);
                 if which == 0 {
-                    match h264_reader::nal::sps::SeqParameterSet::from_bits(h264_reader::rbsp::BitReader::new(&rbsp[..])) { Ok(s) if valid => ctx.put_seq_param_set(s), _ => { err = Some("Sps"); break 'ctx; } }
+                    match h264_reader::nal::sps::SeqParameterSet::from_bits(h264_reader::rbsp::BitReader::new(&rbsp[..])) { Ok(s) if valid => { smap.insert(s.seq_parameter_set_id.id(), format!("{:?}", s)); ctx.put_seq_param_set(s) } _ => { err = Some("Sps"); break 'ctx; } }
                 } else {
-                    match h264_reader::nal::pps::PicParameterSet::from_bits(&ctx, h264_reader::rbsp::BitReader::new(&rbsp[..])) { Ok(p) if valid => ctx.put_pic_param_set(p), _ => { err = Some("Pps"); break 'ctx; } }
+                    match h264_reader::nal::pps::PicParameterSet::from_bits(&ctx, h264_reader::rbsp::BitReader::new(&rbsp[..])) { Ok(p) if valid => { pmap.insert(p.pic_parameter_set_id.id(), format!("{:?}", p)); ctx.put_pic_param_set(p) } _ => { err = Some("Pps"); break 'ctx; } }
                 }
             }
         }
-        let want_ctx = match err { Some(k) => format!("ctx=Err({})", k), None => format!("ctx=Ok(sps=[{}] pps=[{}])", ctx.sps().map(|s| format!("{:?}", s)).collect::<Vec<_>>().join(";"), ctx.pps().map(|p| format!("{:?}", p)).collect::<Vec<_>>().join(";")) };
+        let want_ctx = match err { Some(k) => format!("ctx=Err({})", k), None => format!("ctx=Ok(sps=[{}] pps=[{}])", smap.values().cloned().collect::<Vec<_>>().join(";"), pmap.values().cloned().collect::<Vec<_>>().join(";")) };
         if obs.ends_with(&want_ctx) { "ok".into() } else { let got = obs.rfind("ctx=").map(|i| &obs[i..]).unwrap_or(""); format!("FAIL create_context gave [{}] but parsing each parameter set on its own gives [{}]", &got[..got.len().min(300)], &want_ctx[..want_ctx.len().min(300)]) }
     }
 
@@ -612,6 +632,8 @@ impl Oracle {
         let want = format!("avc1.{:02X}{:02X}{:02X}", u8::from(s.profile_idc), u8::from(s.constraint_flags), s.level_idc);
         if format!("{}", s.rfc6381()) != want { return format!("FAIL rfc6381 = {} expected {}", s.rfc6381(), want); }
         if s.profile().profile_idc() != u8::from(s.profile_idc) || s.level().level_idc() != s.level_idc { return "FAIL profile / level do not map back".into(); }
+        // Level 1b is told from 1.1 by constraint_set3_flag alone (A.3.1, the table checked exhaustively by C20)
+        if (s.level() == h264_reader::nal::sps::Level::L1_b) != (s.level_idc == 11 && u8::from(s.constraint_flags) & 0x10 != 0) { return format!("FAIL level() = {:?} for level_idc {} with constraint flags {:#04x}", s.level(), s.level_idc, u8::from(s.constraint_flags)); }
         "ok".into()
     }
 
